@@ -1,12 +1,14 @@
 import WhatIs.Base.Bytes
 import WhatIs.Base.Info
 import WhatIs.Model.Keys
+import WhatIs.Gen.Curves
 /-
   Model/SshWire.lean — `ssh.ParsePublicKey` (golang.org/x/crypto v0.28.0, ssh/keys.go + ssh/messages.go) on a public key
   blob, for the key types whose description needs no curve arithmetic: `ssh-rsa` (RFC 4253 §6.6: string, mpint e,
   mpint n), `ssh-dss` (string, mpint p, q, g, y) and `ssh-ed25519` (RFC 8709: string, string key).  `parseString` (uint32 length, that many octets), `parseInt`
   (RFC 4251 §5 mpint: two's complement, big-endian), the exponent checks of `parseRSA`, the 32-octet check of
-  `parseED25519`, "trailing junk".  Other algorithms (ECDSA, sk-*, certificates) are answered `unmodelled`.
+  `parseED25519`, "trailing junk".  `ecdsa-sha2-nistp256/384/521` (RFC 5656: string curve, string point, with the on-curve check over the regenerated
+  curve table).  Other algorithms (sk-*, certificates) are answered `unmodelled`.
   On top: `sshBlobAttrs` = `sshPublicKeyAttributes` of internal/file/ssh.go for the parsed key.
 -/
 namespace WhatIs.SshWire
@@ -35,6 +37,7 @@ inductive Key where
   | rsa (e n : Int)
   | dsa (p q g y : Int)
   | ed25519 (k : Bytes)
+  | ecdsa (curve : String) (x y : Nat)     -- crypto/elliptic curve name, affine coordinates
   deriving DecidableEq, Repr
 
 inductive Out where
@@ -46,6 +49,44 @@ inductive Out where
 def sshRsa : Bytes := strBytes "ssh-rsa"
 def sshEd25519 : Bytes := strBytes "ssh-ed25519"
 def sshDss : Bytes := strBytes "ssh-dss"
+
+/-- the curve identifiers of RFC 5656 §10.1 that `parseECDSA` knows: identifier, crypto/elliptic name, coordinate octets -/
+def nistCurves : List (Bytes × String × Nat) :=
+  [(strBytes "nistp256", "P-256", 32), (strBytes "nistp384", "P-384", 48), (strBytes "nistp521", "P-521", 66)]
+
+def ecdsaAlgos : List Bytes :=
+  [strBytes "ecdsa-sha2-nistp256", strBytes "ecdsa-sha2-nistp384", strBytes "ecdsa-sha2-nistp521"]
+
+/-- `elliptic.Unmarshal`'s point check: both coordinates below the field prime and y² = x³ + ax + b (mod p), over the
+    REGENERATED curve table -/
+def onCurve (c : Gen.PrimeCurve) (x y : Nat) : Bool :=
+  x < c.key && y < c.key && (y * y) % c.key == (x * x * x + beNat c.a * x + beNat c.b) % c.key
+
+/-- `parseECDSA`: the curve comes from the INNER identifier string (not from the algorithm name in front of it), the key
+    type shown is derived from that curve -/
+def parseECDSA (r : Bytes) : Out :=
+  match parseString r with
+  | none => .err
+  | some (cname, r2) =>
+    match parseString r2 with
+    | none => .err
+    | some (kb, rest) =>
+      match nistCurves.find? (fun t => t.1 = cname) with
+      | none => .err                                           -- "unsupported curve"
+      | some (_, goName, bl) =>
+        match Gen.primeCurves.find? (fun c => c.name = goName) with
+        | none => .unmodelled
+        | some c =>
+          match kb with
+          | 4 :: xy =>
+            if xy.length ≠ 2 * bl then .err
+            else
+              let x := beNat (xy.take bl)
+              let y := beNat (xy.drop bl)
+              if ¬ onCurve c x y then .err                      -- "invalid curve point"
+              else if rest ≠ [] then .err
+              else .ok (strBytes "ecdsa-sha2-" ++ cname) (.ecdsa goName x y)
+          | _ => .err
 
 /-- `ssh.ParsePublicKey` -/
 def parsePublicKey (blob : Bytes) : Out :=
@@ -80,6 +121,7 @@ def parsePublicKey (blob : Bytes) : Out :=
               if Keys.bitLen p.natAbs ≠ 1024 then .err        -- "unsupported DSA key size"
               else if rest ≠ [] then .err
               else .ok algo (.dsa p q g y)
+    else if ecdsaAlgos.contains algo then parseECDSA r
     else if algo = sshEd25519 then
       match parseString r with
       | none => .err
@@ -92,6 +134,7 @@ def toPub : Key → Keys.Pub
   | .rsa _ n => .rsa n.natAbs
   | .dsa p _ _ _ => .dsa p.natAbs
   | .ed25519 _ => .ed25519
+  | .ecdsa name _ _ => .ecGo name
 
 /-- `sshPublicKeyAttributes(pub, "")` for a blob `ssh.ParsePublicKey` accepts -/
 def sshBlobAttrs (blob : Bytes) : Option (List Attr) :=
